@@ -55,17 +55,23 @@ def wide(rng, width):
 
 
 def untracked(rng):
-    lines = [gen_dag.leaf_line((2,), [1.0, 3.0], True), gen_dag.leaf_line((2,), [2.0, 1.0], False), 't ctx new ng']
+    # two no_grad objects constructed up front (while tracking is on) and entered later, also one inside the other
+    lines = [gen_dag.leaf_line((2,), [1.0, 3.0], True), gen_dag.leaf_line((2,), [2.0, 1.0], False), 't ctx new ng', 't ctx new ng']
     nt = 2
     inside = False
-    for _ in range(rng.randint(4, 12)):
+    inner = False
+    for _ in range(rng.randint(4, 14)):
         r = rng.random()
-        if r < .2:
+        if r < .2 and not inner:
             lines.append('t ctx exit 0' if inside else 't ctx enter 0'); inside = not inside
+            continue
+        if r < .35 and inside:
+            lines.append('t ctx exit 1' if inner else 't ctx enter 1'); inner = not inner
             continue
         a = rng.randrange(nt); b = rng.randrange(nt)
         lines.append(rng.pick([f't op add {a},{b}', f't op mul {a},{b}', f't op neg {a}', f't op sum {a} all 0', f't op reshape {a} -1']))
         lines.append(f't flags {nt}'); nt += 1
+    if inner: lines.append('t ctx exit 1')
     if inside: lines.append('t ctx exit 0')
     return {'kind': 'untracked', 'lines': lines}
 
